@@ -93,7 +93,10 @@ def gen(rng, tier, i):
         ops += ['as b mk sg arr 3', 'sc b init addx', 'as a ec', 'move a b', 'sc b x dest tp,%s sg %d' % (rng.choice(('cov', 'covf')), rng.randint(1, 2)), 'as a cmd x']
         used_cov = True
     fk = rng.randint(0, 60 * n) if rng.random() < 0.4 else None
-    tmpl = {'ops': ops, 'cyc': [list(c) for c in cyc], 'objslots': objslots, 'fk': fk, 'used_cov': used_cov, 'used_itv': used_itv,
+    # half of the faults are not an error at that instruction but a value stack that has only a few free slots from there on:
+    # the driver's own "Stack overflow" is then raised by whichever push comes first, often in the middle of an efun
+    fkind = 'error' if rng.random() < 0.5 else 'stackroom:%d' % rng.choice((0, 1, 2, 3, 4, 6, 9, 14))
+    tmpl = {'ops': ops, 'cyc': [list(c) for c in cyc], 'objslots': objslots, 'fk': fk, 'fkind': fkind, 'used_cov': used_cov, 'used_itv': used_itv,
             'kinds': sorted(kinds_used), 'shared': shared, 'many': bool(many), 'many_kind': p.meta.get('many_kind')}
     return build(tmpl)
 
@@ -130,7 +133,7 @@ def build(t):
         start = len(p.cycles)
         for ci, c in enumerate(cmds):
             j = p.cycle(send(0, 'do ' + c + '\r\n'))
-            if t['fk'] is not None and ci == 0: p.cycles[j].insert(0, fault(t['fk'], 'error'))
+            if t['fk'] is not None and ci == 0: p.cycles[j].insert(0, fault(t['fk'], t.get('fkind', 'error')))
         if used_cov: p.cycle(tick())
         if used_itv: p.cycle(send(0, 'line for input_to\r\n'))
         jc = p.cycle(send(0, 'do ' + cleanup + '\r\n'))
@@ -234,7 +237,7 @@ def summarize(plan, res):
     mem = [e.kv() for e in res.events if e.kind == 'mem']
     return {'nontrivial': len(plan.meta.get('kinds', [])) >= 4 and plan.meta.get('shared', False),
             'abstract': hashlib.sha256((' '.join(ops) + ' ' + ' '.join(plan.meta.get('efuns') or [])).encode()).hexdigest()[:16],
-            'probes': {'rounds_completed': len(mem), 'faults_fired': len(res.of('fault_fired')), 'many_holders_runs': 1 if plan.meta.get('many') else 0,
+            'probes': {'rounds_completed': len(mem), 'faults_fired': len(res.of('fault_fired')), 'stack_overflows_raised_by_the_driver': sum(1 for e in res.events if e.kind in ('R', 'D') and 'tack overflow' in e.rest), 'many_holders_runs': 1 if plan.meta.get('many') else 0,
                        'errors_reported': sum(1 for e in res.events if e.kind == 'R' and e.rest.startswith('ERR ')),
                        'call_out_values_fired': sum(1 for e in res.events if e.kind == 'R' and e.rest.startswith('COVAL ')),
                        'input_to_values': sum(1 for e in res.events if e.kind == 'R' and e.rest.startswith('GOTVAL ')),
@@ -352,11 +355,15 @@ def gen_efuns(rng, tier, i):
     p.cycle(connect(0, 0))
     p.cycle(send(0, 'do name u0;call /c6/e setup\r\n'))
     p.meta['round_cycles'] = []
+    # in a third of the plans the value stack runs out at one (per plan fixed) instruction of run_efuns(), the same in every round
+    sfk = (rng.randint(8, 8 + 5 * len(calls)), rng.choice((0, 0, 1, 1, 2, 3, 4, 6, 9))) if rng.random() < 0.33 else None
     for r in range(ROUNDS):
         start = len(p.cycles)
         p.cycle(send(0, 'do call /c6/e setup\r\n'))
-        p.cycle(send(0, 'do call /c6/e run_efuns\r\n'))
-        p.cycle(send(0, 'do call /c6/e clearg\r\n'))
+        j = p.cycle(send(0, 'do call /c6/e run_efuns\r\n'))
+        if sfk: p.cycles[j].insert(0, fault(sfk[0], 'stackroom:%d' % sfk[1]))
+        j = p.cycle(send(0, 'do call /c6/e clearg\r\n'))
+        if sfk: p.cycles[j].insert(0, 'fault -1 error')
         p.idle(1)
         p.cycle(send(0, 'do memstat %d\r\n' % r))
         p.meta['round_cycles'].append((start, len(p.cycles)))
